@@ -519,14 +519,14 @@ Family(f) ==
              4, {0}, {"xhtml_escape"}, {"all"}, {DefaultS}, <<>>)
       [] f = "tryloop" ->   \* signals through finally inside a loop (prefix: for x in r, try)
            F({"a", "e_x", "e_boom", "break", "continue", "except", "finally", "else", "end", "if_x1"},
-             4, {0}, {"xhtml_escape"}, {"all"}, {DefaultS}, <<"for_x", "try">>)
+             3, {0}, {"xhtml_escape"}, {"all"}, {DefaultS}, <<"for_x", "try">>)
       [] f = "apply" ->     \* apply blocks: nested function, scoping, break across apply
            F({"a", "e_s", "e_x", "raw_s", "apply_wrap", "apply_esc", "for_x", "for_y", "set_k0", "e_k", "break", "end", "e_boom"},
-             4, {0}, AEboth, {"all"}, {DefaultS}, <<>>)
+             3, {0}, AEboth, {"all"}, {DefaultS}, <<>>)
       [] f = "loader" ->    \* extends / block / include through the loader, per-file settings
            F({"a", "e_s", "ext_base", "inc_inc", "inc_inc_sq", "inc_base", "block_p", "block_q", "end", "ae_none", "ae_x", "for_x",
               "ws_oneline", "sp_nl_sp"},
-             3, {1, 2, 3, 4, 5}, AEboth, {"all", "single"}, {DefaultS}, <<>>)
+             2, {1, 2, 3, 4, 5}, AEboth, {"all", "single"}, {DefaultS}, <<>>)
       [] f = "ws" ->        \* whitespace filtering per text node and whitespace directives
            F({"a", "sp", "nl", "tab", "sp_nl_sp", "a_sp_sp_a", "cmt", "esc_expr", "e_n", "ws_all", "ws_single", "ws_oneline"},
              3, {0}, {"xhtml_escape"}, {"default", "single", "oneline"}, {DefaultS}, <<>>)
